@@ -317,6 +317,7 @@ def run(ctx, rep):
             requested |= reg.get(ch, set())
     producible = sorted(ch for ch, fl in letters.items() if fl & requested)
     bad_p = []
+    bad_t = []
     n_ev = 0
     try:
         import itertools as _it
@@ -335,19 +336,35 @@ def run(ctx, rep):
                     def __init__(self, **kw):
                         self.__dict__.update(kw)
                 noop = lambda *a, **k: None
-                st_ = {"poll_object": _Obj(unregister=noop, register=noop, modify=noop, poll=lambda *a: []),
+                registered = {7}
+
+                def unreg(fd):
+                    if fd not in registered:
+                        raise MIp.Raised("KeyError")
+                    registered.discard(fd)
+                st_ = {"poll_object": _Obj(unregister=unreg, register=lambda fd, *a: registered.add(fd), modify=noop, poll=lambda *a: []),
                        "_active_connection_queue": _Obj(put=queued.append, get=noop),
-                       "fd_to_conn": {7: _Obj(close=noop, fileno=lambda: 7)},
+                       "fd_to_conn": {7: _Obj(close=lambda: dropped.append(7), fileno=lambda: 7)},
                        "logger": _Obj(debug=noop, info=noop, warning=noop, warn=noop, error=noop, exception=noop)}
                 tp_meths = {n_: m_.node for n_, m_ in ctx.cls(SRV + ".ThreadPoolServer").methods.items()
-                            if n_ not in ("_drop_connection", "_handle_poll_result")}
-                MIp.call_method(fhp.node, st_, [[(7, evt)]], {"__calls__": {"self._drop_connection": dropped.append},
-                                                              "__methods__": tp_meths, "__max_iter__": 100})
+                            if n_ not in ("_handle_poll_result",)}
+                MIp.call_method(fhp.node, st_, [[(7, evt)]], {"__methods__": tp_meths, "__max_iter__": 100})
                 if err and (dropped != [7] or queued):
                     bad_p.append("event %r (error/hang-up condition): dropped %s, queued %s" % (evt, dropped, queued))
                 if not err and (queued != [7] or dropped):
                     bad_p.append("event %r (readable, no error): dropped %s, queued %s - requests already delivered by a client "
                                  "that then closed are discarded" % (evt, dropped, queued))
+                if err and (7 in registered or 7 in st_["fd_to_conn"]):
+                    bad_t.append("event %r (error/hang-up): afterwards the descriptor is %s" % (evt, " and ".join(x for x in (
+                        "still registered with the poll object" if 7 in registered else "",
+                        "still in fd_to_conn" if 7 in st_["fd_to_conn"] else "") if x)))
+                if not err and 7 in registered:
+                    bad_t.append("event %r (readable): the descriptor stays registered with the poll object while a worker serves "
+                                 "it - the polling thread reports it again and a second worker reads the same connection" % evt)
+        rep.ob("R16.2", "ThreadPoolServer._handle_poll_result: a handled descriptor is no longer polled; a dropped one leaves no table "
+               "entry", not bad_t, "%d producible events: unregistered from the poll object%s" % (n_ev, ", removed from fd_to_conn when dropped")
+               if not bad_t else "; ".join(bad_t[:3]) + " (a closed descriptor left in the poll set is reported as invalid on every "
+               "poll: the polling thread spins dropping the departed client again and again)", fhp.loc, kind="table")
         rep.ob("R16.2", "ThreadPoolServer._handle_poll_result: readable events are served, error events dropped", not bad_p,
                "%d producible events over the letters %s" % (n_ev, producible) if not bad_p else "; ".join(bad_p[:3]), fhp.loc, kind="table")
     except (AnalysisError, MIp.Raised) as e_:
@@ -543,6 +560,10 @@ def run(ctx, rep):
     K.share(ctx, rep, "c08", lambda o: o.rule == "R08.1" and o.key.startswith("_dispatch_request: failure of"), "R16.5", floor=3)
     K.share(ctx, rep, "c11", lambda o: o.rule == "R11.3", "R16.5", floor=4)
     K.share(ctx, rep, "c05", lambda o: o.rule == "R05.3", "R16.5", floor=8)
+    # a serving thread that blocks for ever on a leaked collection lock (a peer returning a reference it never got) is lost to
+    # every other client; a forked child that still owns the listener can shut it down for the parent
+    K.share(ctx, rep, "c10", lambda o: o.rule == "R10.4" and "lock is released on every exit" in o.key, "R16.5", floor=4)
+    K.share(ctx, rep, "c17", lambda o: o.rule == "R17.2" and "ForkingServer" in o.key, "R16.5", floor=1)
     # per-client objects do not share mutable state by accident (mutable default arguments, class-level tables)
     from . import hygiene as H
     for cq_ in sorted(q for q, c_ in ctx.repo.classes.items() if q.startswith("rpyc.core.service.") or q in (
